@@ -74,13 +74,16 @@ theorem C12_views_of_rebuilt (g : Spec) (hc : g.noCustom = true) (b : BDNA)
 /-! ### from_dict -/
 
 /-- `DNA.from_dict(D, spec, use_ints_as_literals)` rebuilds a valid DNA `d` from ANY dictionary `D`
-that holds the decisions of `d` (`Good D o useInts b`, `b` = the bound `d`): under the id of every
-decision point `d` passes through — or, with `multi_choice_key='parent'`, as the list under the
-id of the multi-choice — the decision in the value style of `o`, readable by `candidate_index`.
-Covers the 15 option combinations with id keys (5 value styles × 3 multi-choice modes), every
-spec without custom points. That `to_dict` produces such a dictionary (no two decision points
-render to the same key) is compared on every run (`from_dict(to_dict(…))`, model and code, all
-30 option triples) rather than proved. -/
+that holds the decisions of `d` (`Good D o useInts b`, `b` = the bound `d`): for every decision
+point `d` passes through, the decision in the value style of `o`, readable by `candidate_index`,
+sits under the point's id, or — when the id is no key of `D` — under its name (`key_type='id'` and
+`key_type='name_or_id'`), or, with `multi_choice_key='parent'`, in the list under the id of the
+multi-choice. Every spec without custom points, 5 value styles × 3 multi-choice modes × both key
+types, as long as a name holds ONE decision; a name shared by several active decisions (a named
+point inside the candidates of a multi-choice: the values accumulate in a list that `from_dict`
+pops) is modelled (`getDecision`) and compared on every run, not covered by this theorem. That
+`to_dict` produces such a dictionary (no two decision points render to the same key) is likewise
+compared on every run (`from_dict(to_dict(…))`, model and code, all 30 option triples). -/
 theorem C12_from_dict (g : Spec) (hc : g.noCustom = true) (d : DNA) (b : BDNA) (o : Opts) (useInts : Bool)
     (D : List (String × DE)) (hv : Valid g d) (hb : g.annot d = some b) (hD : Good D o useInts b) :
     g.fromDict useInts D = some d :=
@@ -126,6 +129,13 @@ def exampleDna12 : DNA :=
 example : Valid exampleSpec12 exampleDna12 ∧ viewNorm exampleDna12 = true := by decide
 example : exampleSpec12.fromNumbers (flat exampleDna12) = some exampleDna12 := by decide
 example : exampleSpec12.noCustom = true := by decide
+/-- A named choice under `key_type='name_or_id'` is read back through its name. -/
+example : (match (Spec.point (.choices 1 [[], [.choices 1 [[], []] true false { name := some "inner", loc := [.s "b"] }]]
+      true false { name := some "outer", loc := [.s "a"] })).annot (.mk (.int 1) [.mk (.int 0) []]) with
+    | some b => decide ((Spec.point (.choices 1 [[], [.choices 1 [[], []] true false { name := some "inner", loc := [.s "b"] }]]
+        true false { name := some "outer", loc := [.s "a"] })).fromDict false
+        (toDict { keyType := 1 } b) = some (.mk (.int 1) [.mk (.int 0) []]))
+    | none => false) = true := by decide
 /-- `Good` is satisfiable: the default dictionary view of the example DNA holds its decisions. -/
 example : (match exampleSpec12.annot exampleDna12 with
     | some b => decide (exampleSpec12.fromDict false (toDict {} b) = some exampleDna12)
